@@ -220,6 +220,78 @@ def run_components(case, ctx):
         ctx.nontrivial([comp, min(b, 9), shape])
 
 
+# ------------------------------------------------- shuffled reader under shim
+def strategy_lazy(tier):
+    return st.fixed_dictionaries({
+        "fmt": st.sampled_from(["fb", "fb", "npz"]),
+        "eps": st.integers(1, 3),
+        "s": st.integers(1, 10),
+        "last": st.integers(0, 2),
+        "t": st.integers(1, 3),
+        "choices": st.lists(st.integers(0, 4), min_size=0, max_size=300),
+    })
+
+
+def run_lazy(case, ctx):
+    """as_numpy_iterator_concurrent(shuffle>0) with the interleaving of its
+    LazyPool owned by the scheduler shim (vlib.sched)."""
+    from vlib import env, sched
+    from vlib.core import Inconclusive
+    desc = dsops.simple_desc(case["fmt"], "", case["eps"], ["xxh64"],
+                             payload=False)
+    n = max(1, case["s"] * case["eps"] - min(case["last"], case["eps"] - 1))
+    root = env.scratch_dir("c02l")
+    try:
+        ds = dsops.create_dataset(root / "ds", desc)
+        dsops.filler_session(ds, desc, [["train", list(range(n)), None]])
+        s = sched.Scheduler(case["choices"])
+        s.register_current("c")
+        ids = []
+        err = None
+        with sched.Installed(s):
+            try:
+                try:
+                    for ex in ds.as_numpy_iterator_concurrent(
+                            split="train",
+                            repeat=False,
+                            shuffle=3,
+                            file_parallelism=case["t"]):
+                        ids.append(dsops.ex_id_of(ex))
+                except sched.SchedAbort:
+                    pass
+                except sched.UnsupportedPrimitive as exc:
+                    raise Inconclusive(str(exc)) from exc
+                if not s._aborting():  # pylint: disable=protected-access
+                    s.drain()
+            finally:
+                s.join_threads(1.0)
+        if s.step_limit_hit:
+            raise Inconclusive("step limit")
+        what = (f"concurrent shuffled reader, {case['fmt']} N={n} "
+                f"eps={case['eps']} file_parallelism={case['t']}")
+        if s.deadlock is not None and any(
+                name == "c" and not op.startswith("drain")
+                for name, op in s.deadlock["waiting"]):
+            ctx.fail("multiset", ("no-result-deadlock", "concurrent"),
+                     f"{what}: the pass never finishes: {s.deadlock}")
+        elif Counter(ids) != Counter(range(n)):
+            ctx.fail(
+                "multiset", ("multiset-mismatch", "concurrent",
+                             "shuffled-scheduled"),
+                f"{what}: " + oracles.multiset_diff(ids, list(range(n))) +
+                f"; choices {case['choices'][:s.ci]}")
+        ctx.label("lazy-sched", f"T={case['t']}")
+        shards = -(-n // case["eps"])
+        if shards >= 2:
+            ctx.nontrivial([
+                "lazy-sched", case["fmt"], shards, case["t"],
+                "S>2T+2" if shards > 2 * case["t"] + 2 else "S<=2T+2",
+                s.worker_switches() >= 2
+            ])
+    finally:
+        dsops.rmtree(root)
+
+
 STAGES = [
     Stage(name="dataset",
           run=run_dataset,
@@ -230,6 +302,13 @@ STAGES = [
           },
           fork=True,
           rust=True),
+    Stage(name="lazy_sched",
+          run=run_lazy,
+          strategy=strategy_lazy,
+          examples={
+              "quick": 1600,
+              "thorough": 30000
+          }),
     Stage(name="components",
           run=run_components,
           strategy=strategy_components,
